@@ -1,49 +1,48 @@
 #!/venv/bin/python
-"""Developer tool: re-run all registered checks against every seeded change (applied to /repo, undone
-afterwards) and refresh meta.json's detection record.  usage: rerun_seeds.py [seed id ...]"""
-import json, os, subprocess, sys
+"""Developer tool: re-run all registered checks against every seeded change (applied to a scratch copy of
+the package sources, never to /repo) and refresh meta.json's detection record.
+usage: rerun_seeds.py [seed id ...]"""
+import json, os, sys
 from concurrent.futures import ThreadPoolExecutor
 
-def sh(cmd, cwd=None, env=None, timeout=900):
-    r = subprocess.run(cmd, shell=True, cwd=cwd, env=env, capture_output=True, text=True, timeout=timeout)
-    return r.returncode, r.stdout + r.stderr
+sys.path.insert(0, os.path.dirname(os.path.abspath(__file__)))
+from scratch import checks_on_patch, sh
+
+
+def one(sid):
+    d = os.path.join("/verif/seeded", sid)
+    patch = os.path.join(d, "patch.diff")
+    if not os.path.exists(patch):
+        return sid, None
+    res = checks_on_patch(patch, nlines=5)
+    if res is None:
+        return sid, "PATCH DOES NOT APPLY"
+    mp = os.path.join(d, "meta.json")
+    meta = json.load(open(mp))
+    meta["checks_run_against_it"] = {p: rc for p, (rc, _) in res.items()}
+    meta["detected_by"] = [p for p, (rc, _) in res.items() if rc == 1]
+    meta["analysis_error_in"] = [p for p, (rc, _) in res.items() if rc == 2]
+    meta["reports"] = {p: l for p, (rc, l) in res.items() if rc != 0}
+    json.dump(meta, open(mp, "w"), indent=1)
+    return sid, (meta["property"], meta["detected_by"], meta["analysis_error_in"])
+
 
 def main():
-    base = "/verif/seeded"
-    ids = sys.argv[1:] or sorted(os.listdir(base))
-    man = json.load(open("/verif/MANIFEST.json"))
-    claimed = [c["property_id"] for c in man["checks"]]
+    ids = sys.argv[1:] or sorted(os.listdir("/verif/seeded"))
     rc, out = sh("git -C /repo status --porcelain --untracked-files=no")
     assert out.strip() == "", "/repo has local modifications"
     summary = {}
-    for sid in ids:
-        d = os.path.join(base, sid)
-        patch = os.path.join(d, "patch.diff")
-        if not os.path.exists(patch):
-            continue
-        rc, out = sh(f"git -C /repo apply {patch}")
-        if rc != 0:
-            print(sid, "PATCH DOES NOT APPLY", out[:200]); continue
-        try:
-            env = dict(os.environ, NSSA_NO_EVIDENCE="1")
-            def one(p):
-                rc, out = sh(f"/verif/check {p}", cwd="/verif", env=env, timeout=600)
-                return p, rc, [l for l in out.splitlines() if l.startswith(("VIOLATION", "  ", "ANALYSIS-ERROR"))][:5]
-            with ThreadPoolExecutor(8) as ex:
-                res = list(ex.map(one, claimed))
-        finally:
-            sh("git -C /repo checkout -- .")
-        meta = json.load(open(os.path.join(d, "meta.json")))
-        meta["checks_run_against_it"] = {p: rc for p, rc, _ in res}
-        meta["detected_by"] = [p for p, rc, _ in res if rc == 1]
-        meta["analysis_error_in"] = [p for p, rc, _ in res if rc == 2]
-        meta["reports"] = {p: l for p, rc, l in res if rc != 0}
-        json.dump(meta, open(os.path.join(d, "meta.json"), "w"), indent=1)
-        summary[sid] = (meta["property"], meta["detected_by"], meta["analysis_error_in"])
-        print(f"{sid:40s} breaks {meta['property']}  detected by {meta['detected_by']}  errors {meta['analysis_error_in']}")
-    missed = [s for s, (p, d, e) in summary.items() if not d]
-    print("NOT DETECTED:", missed)
+    with ThreadPoolExecutor(14) as ex:
+        for sid, r in ex.map(one, ids):
+            if r is None:
+                continue
+            if isinstance(r, str):
+                print(sid, r); continue
+            summary[sid] = r
+            print(f"{sid:40s} breaks {r[0]}  detected by {r[1]}  errors {r[2]}", flush=True)
+    print("NOT DETECTED:", [s for s, (p, d, e) in summary.items() if not d])
     print("NOT DETECTED BY THEIR OWN PROPERTY:", [s for s, (p, d, e) in summary.items() if p not in d])
+
 
 if __name__ == "__main__":
     main()
